@@ -19,7 +19,7 @@ from concurrent.futures import ThreadPoolExecutor
 import common as C
 
 ID = "C19"
-COQ_TARGETS = ["Properties/C19.vo"]
+COQ_TARGETS = ["Properties/C19.vo", "GenFacts/ConfigSrcFacts.vo"]
 MODEL_TARGETS = ["Model/Config.vo"]
 IMPORTS = "From Ka Require Import Model.Config.\nFrom Coq Require Import Ascii.\nOpen Scope string_scope.\n"
 PY = "/venv/bin/python"
